@@ -1,6 +1,34 @@
 # per-property configuration of tools/check.py
+def P(level="proof", assumptions=(), quick=300, thorough=3000, **kw):
+    d = {"level": level, "assumptions": list(assumptions), "harness_timeout": {"quick": quick, "thorough": thorough}}
+    d.update(kw)
+    return d
+
 PROPS = {
-    "C12": {"level": "proof",
-            "assumptions": ["array lengths are below 2^63 (any Go slice)", "strings: theorem stated for valid UTF-8; correspondence also runs mixed-width strings"],
-            "harness_timeout": {"quick": 300, "thorough": 1800}},
+    "C01": P(assumptions=["reference semantics (Spec/RefEval.v) is my reading of the JMESPath Community specification, validated against the compliance corpus", "multi-select on a null current node and filter-after-filter extents are treated as undetermined"]),
+    "C02": P(assumptions=["lower/upper are modelled on ASCII only", "to_string of decimals is not modelled"]),
+    "C03": P(assumptions=["stack exhaustion at ~10^6 nesting levels and out-of-memory are outside the model (runtime)", "array lengths are Go-representable"]),
+    "C04": P(assumptions=["membership of mutated strings is decided by the model until the executable grammar lands"]),
+    "C05": P(assumptions=["decimal128 is modelled at specification level (exact result, one rounding)", "operands have at most 34 significant digits"]),
+    "C06": P(assumptions=["Go aliasing and the memory model are abstracted by the write-site provenance table of tools/gotrans (intra-procedural)"]),
+    "C07": P(race=True, assumptions=["real schedules are exercised under the Go race detector only; the theorem is about the effect model"]),
+    "C08": P(),
+    "C09": P(assumptions=["wall time and allocation are measured by the harness; the theorems bound the model's fuel (lexer/parser) only"], quick=600),
+    "C10": P(),
+    "C11": P(assumptions=["valid UTF-8 input"]),
+    "C12": P(assumptions=["array lengths are below 2^63 (any Go slice)", "strings: valid UTF-8"]),
+    "C13": P(assumptions=["stdlib sort contract (sorted permutation; Stable keeps equal keys in order)"]),
+    "C14": P(assumptions=["float32/float64 only for exactly representable values and whole documents", "to_string exposes the spelling of a number (excluded)"]),
+    "C15": P(),
+    "C16": P(assumptions=["valid UTF-8 (scalar values)"]),
+    "C17": P(),
+    "C18": P(),
+    "C19": P(),
+    "C20": P(),
 }
+
+CHECKER = {"C01": "Spec", "C10": "Spec", "C15": "Spec", "C17": "Spec", "C18": "Spec", "C19": "Spec", "C20": "Spec", "C06": "Spec",
+           "C02": "Basic", "C03": "Basic", "C08": "Basic", "C11": "Basic", "C13": "Basic", "C14": "Basic", "C16": "Basic",
+           "C04": "C04", "C05": "C05", "C12": "C12", "C07": None, "C09": None}
+for k, v in CHECKER.items():
+    PROPS[k]["checker"] = v
